@@ -348,6 +348,9 @@ class ExprMixin:
             if not cont.items:
                 return T(BOOL, "false")
             return T(BOOL, "(or " + " ".join(self.eq(x, i).s for i in cont.items) + ")") if len(cont.items) > 1 else self.eq(x, cont.items[0])
+        if isinstance(x, TupV) and isinstance(cont, T) and isinstance(cont.sort, tuple) and cont.sort[0] in ("Map", "Set") \
+                and isinstance(cont.sort[1], tuple) and cont.sort[1][0] == "Tup":
+            x = self.coerce(x, cont.sort[1], "in")
         if isinstance(x, (TupV, Closure)) or isinstance(cont, Closure):
             return self.opaque("in", BOOL)
         s = cont.sort
